@@ -210,6 +210,8 @@ class ContractMixin:
             sv.facts(st, self)
             f = {"str_init": init_seg, "str_last": last_seg, "str_first": first_seg}[name]
             return mk_str(f(args[0].t, args[1].t))
+        if name == "lower":
+            return mk_str(z3.Function("str_lower", z3.StringSort(), z3.StringSort())(args[0].t))
         if name == "module":
             return self.module_ref(z3.simplify(args[0].t).as_string())
         if name == "log_result":
